@@ -52,190 +52,6 @@ ASSUMPTIONS = [
 
 
 # ======================================================================================================
-# Defect model KF-C05-1 (DESIGN.md section 4, finding 3; root cause shared with C13)
-#
-# `filter LM` reads only the lines of an interval derived from LM.  The derivation computes the
-# interval of `line-num IM` for a disjunction / conjunction inside IM as the *hull* of the operands'
-# intervals and takes the inversion of that hull (instead of the union of the operands' inversions)
-# when the line matcher is negated: `filter ! line-num ( <= 2 || == 5 )` never looks at lines 3, 4.
-# The model below re-computes that interval the way the flawed derivation does; a mismatch is
-# classified as the known finding only if the observation equals the reference evaluated with
-# `filter` blind outside the modelled interval (and differs from the correct reference).
-# ======================================================================================================
-class _Iv:
-    """interval with 'inversion' as derived by the modelled calculus: kind in E(mpty) U(pper) L(ower) F(inite)
-    A(ll) C(ustom)"""
-
-    def __init__(self, kind, lo=None, hi=None, pos=None, inv=None):
-        self.kind, self.lo_, self.hi_, self.pos, self.inv = kind, lo, hi, pos, inv
-
-    @property
-    def is_empty(self):
-        return self.pos.is_empty if self.kind == 'C' else self.kind == 'E'
-
-    @property
-    def lower(self):
-        return self.pos.lower if self.kind == 'C' else self.lo_
-
-    @property
-    def upper(self):
-        return self.pos.upper if self.kind == 'C' else self.hi_
-
-    @property
-    def inversion(self):
-        k = self.kind
-        if k == 'E' or k == 'F':
-            return _Iv('C', pos=_Iv('A'), inv=self)
-        if k == 'U':
-            return _Iv('L', lo=self.hi_ + 1)
-        if k == 'L':
-            return _Iv('U', hi=self.lo_ - 1)
-        if k == 'A':
-            return _Iv('E')
-        return _Iv('C', pos=self.inv, inv=self.pos)
-
-
-def _iv_of(lower, upper):
-    if lower is None:
-        return _Iv('A') if upper is None else _Iv('U', hi=upper)
-    return _Iv('L', lo=lower) if upper is None else _Iv('F', lo=lower, hi=upper)
-
-
-def _iv_union(a, b):
-    if a.is_empty:
-        return b
-    if b.is_empty:
-        return a
-    lowers = [x for x in (a.lower, b.lower) if x is not None]
-    uppers = [x for x in (a.upper, b.upper) if x is not None]
-    return _iv_of(min(lowers) if len(lowers) == 2 else None, max(uppers) if len(uppers) == 2 else None)
-
-
-def _iv_intersection(a, b):
-    if a.is_empty:
-        return a
-    if b.is_empty:
-        return b
-    lowers = [x for x in (a.lower, b.lower) if x is not None]
-    uppers = [x for x in (a.upper, b.upper) if x is not None]
-    lower = max(lowers) if lowers else None
-    upper = min(uppers) if uppers else None
-    if lower is not None and upper is not None and lower > upper:
-        return _Iv('E')
-    return _iv_of(lower, upper)
-
-
-def _iv_adapt_lines(iv):
-    if iv.is_empty:
-        return iv
-    if iv.upper is not None and iv.upper < 1:
-        return _Iv('E')
-    lower = None if iv.lower is None else max(1, iv.lower)
-    if lower == 1:
-        lower = None
-    upper = None if iv.upper is None else max(1, iv.upper)
-    if lower is not None and upper is not None and lower > upper:
-        return _Iv('E')
-    return _iv_of(lower, upper)
-
-
-def _iv_cmp(op, x):
-    if op == '==':
-        return _Iv('F', lo=x, hi=x)
-    if op == '!=':
-        return _Iv('C', pos=_Iv('A'), inv=_Iv('F', lo=x, hi=x))
-    if op == '<':
-        return _Iv('U', hi=x - 1)
-    if op == '<=':
-        return _Iv('U', hi=x)
-    if op == '>':
-        return _Iv('L', lo=x + 1)
-    return _Iv('L', lo=x)
-
-
-def _unlimited_both():
-    return _Iv('C', pos=_Iv('A'), inv=_Iv('A'))
-
-
-class _IvComputer:
-    """interval of a (line- or integer-) matcher AST; own_interval(node) gives the interval of a primitive that
-    has one (None = unknown class)"""
-
-    def __init__(self, unknown, adapt, own_interval):
-        self.unknown = _Iv('C', pos=adapt(unknown), inv=adapt(unknown.inversion))
-        self.adapt = adapt
-        self.own = own_interval
-
-    def pos(self, node):
-        tag = node[0]
-        if tag == 'const':
-            return self.adapt(_Iv('A') if node[1] else _Iv('E'))
-        if tag == 'not':
-            return self.adapt(self.neg(node[1]))
-        if tag in ('and', 'or'):
-            op = _iv_intersection if tag == 'and' else _iv_union
-            cur = None
-            for child in node[1:]:
-                iv = self.pos(child)
-                cur = iv if cur is None else op(cur, iv)
-            return _Iv('C', pos=cur, inv=self.adapt(cur.inversion))
-        own = self.own(node)
-        return self.unknown if own is None else self.adapt(own)
-
-    def neg(self, node):
-        tag = node[0]
-        if tag == 'const':
-            return _Iv('E') if node[1] else _Iv('A')
-        if tag == 'not':
-            return self.pos(node[1])
-        if tag == 'and':
-            return self.pos(['or'] + [['not', c] for c in node[1:]])
-        if tag == 'or':
-            return self.pos(['and'] + [['not', c] for c in node[1:]])
-        own = self.own(node)
-        if own is None:
-            return _Iv('C', pos=self.unknown.inversion, inv=self.unknown)
-        return own.inversion
-
-
-def _im_interval(im):
-    def own(node):
-        return _iv_cmp(node[1], ref.int_value(node[2])) if node[0] == 'cmp' else None
-
-    return _IvComputer(_unlimited_both(), lambda x: x, own).pos(im)
-
-
-def modelled_filter_interval(lm):
-    """-> (is_empty, lower, upper) of the lines `filter LM` looks at, according to the defect model."""
-
-    def own(node):
-        return _im_interval(node[1]) if node[0] == 'line-num' else None
-
-    iv = _IvComputer(_unlimited_both(), _iv_adapt_lines, own).pos(lm)
-    if iv.is_empty:
-        return True, None, None
-    return False, iv.lower, iv.upper
-
-
-class _IntervalDefectHooks:
-    def __init__(self):
-        self._cache = {}
-
-    def filter_looks_at(self, lm, num):
-        key = id(lm)
-        iv = self._cache.get(key)
-        if iv is None:
-            iv = self._cache[key] = modelled_filter_interval(lm)
-        empty, lo, hi = iv
-        if empty:
-            return False
-        return (lo is None or num >= lo) and (hi is None or num <= hi)
-
-
-KF_INTERVAL = 'KF-C05-1'
-
-
-# ======================================================================================================
 # helpers
 # ======================================================================================================
 _PRIMS_TM = {'is-empty', 'equals', 'matches', 'num-lines', 'every', 'any'}
@@ -278,6 +94,8 @@ def _rx_labels(expr):
                     out.add('regex:ignore-case')
                 if node.get('groups'):
                     out.add('regex:groups')
+                if node['pat'].startswith(('(?m)', '(?s)', '(?i)', '(?ms)')):
+                    out.add('regex:inline-flags')
             for v in node.values():
                 visit(v)
         elif isinstance(node, list):
@@ -299,7 +117,8 @@ def _equals_ctx_labels(expr):
         tag = node[0]
         if tag == 'equals':
             out.add('equals-ctx:%s-model/%s-operand' % ('line' if in_line else 'text',
-                                                        'file' if node[1]['form'] == 'file' else 'string'))
+                                                        {'file': 'file', 'prog': 'program'}.get(node[1]['form'],
+                                                                                                'string')))
             if node[1].get('tr') is not None:
                 visit(node[1]['tr'], in_line)
         elif tag == 'contents':
@@ -473,10 +292,6 @@ def check_cli_matcher(case) -> Verdict:
     if actual == expected:
         return Verdict(True, nontrivial=nontrivial, key=key, labels=labels)
     bucket = 'cli-matcher/%s/%s' % ('PASS' if expected else 'FAIL', 'PASS' if actual else 'FAIL')
-    if ref.eval_tm(m, text, _IntervalDefectHooks()) == actual:
-        detail['defect_model'] = 'filter blind outside the modelled interval predicts the observed verdict'
-        return Verdict(ok=False, known=KF_INTERVAL, bucket=bucket, detail=detail, labels=labels + ['known:interval'],
-                       nontrivial=nontrivial, key=key)
     return fail(bucket, detail, labels=labels, nontrivial=nontrivial, key=key)
 
 
@@ -530,7 +345,21 @@ def build_transformer_case(case):
     lines = ['[setup]'] + setup
     if act:
         lines += ['[act]'] + act
+    # the division into lines of the transformer's output, as seen by what consumes it line by line
+    files['in.txt'] = text.encode('utf-8')
+    dm_src, dm_files = c05_expr.render_tm(line_structure_matcher(tr, text), style, 'k')
+    files.update(dm_files)
+    lines += ['[assert]', 'contents -rel-home in.txt : ' + dm_src]
     return files, '\n'.join(lines) + '\n'
+
+
+def line_structure_matcher(tr, text):
+    """-transformed-by TR ( num-lines == K && ! any line : contents matches '\\n' ), K = the number of lines of
+    the documented output: true by construction.  It makes the line structure of the output (which `num-lines`,
+    `every/any line`, `filter` ... downstream depend on) observable for every generated transformer."""
+    k = ref.num_lines(ref.transform(tr, text))
+    return ['on', tr, ['and', ['num-lines', ['cmp', '==', {'v': k, 'src': str(k)}]],
+                       ['not', ['any', ['contents', ['matches', False, {'pat': '\\n', 'ic': False, 'groups': 0}]]]]]]
 
 
 def check_cli_transformer(case) -> Verdict:
@@ -563,18 +392,18 @@ def check_cli_transformer(case) -> Verdict:
     if r.exception:
         detail['exception'] = r.exception
         return fail('cli-transformer/escaped-exception', detail, labels=labels, nontrivial=nontrivial, key=key)
-    if r.exit_code != 0 or r.first_err_line != 'PASS':
+    if (r.exit_code, r.first_err_line) not in ((0, 'PASS'), (32, 'FAIL')):
         return fail('cli-transformer/not-PASS/%s' % (r.first_err_line or 'no-identifier'), detail, labels=labels,
                     nontrivial=nontrivial, key=key)
     if produced is None:
         return fail('cli-transformer/no-output-file', detail, labels=labels, nontrivial=nontrivial, key=key)
     if produced == expected.encode('utf-8'):
+        if r.exit_code != 0:
+            # the output text is as documented, but not its division into lines
+            return fail('cli-transformer/line-structure-of-output', detail, labels=labels, nontrivial=nontrivial,
+                        key=key)
         return Verdict(True, nontrivial=nontrivial, key=key, labels=labels)
     bucket = 'cli-transformer/output-differs/' + _diff_class(expected, produced.decode('utf-8', errors='replace'))
-    if ref.transform(tr, text, _IntervalDefectHooks()).encode('utf-8') == produced:
-        detail['defect_model'] = 'filter blind outside the modelled interval predicts the observed output'
-        return Verdict(ok=False, known=KF_INTERVAL, bucket=bucket, detail=detail, labels=labels + ['known:interval'],
-                       nontrivial=nontrivial, key=key)
     return fail(bucket, detail, labels=labels, nontrivial=nontrivial, key=key)
 
 
@@ -703,11 +532,16 @@ def check_api(case) -> Verdict:
     try:
         models = _api_models(fac, home, text)
         items = [('matcher', m) for m in case.get('ms', [])] + [('transformer', t) for t in case.get('trs', [])]
+        items += [('line-structure', line_structure_matcher(t, text)) for t in case.get('trs', [])]
         for idx, (what, expr) in enumerate(items):
+            derived = (what == 'line-structure')
+            if derived:
+                what = 'matcher'
             if what == 'matcher':
                 src, files = c05_expr.render_tm(expr, style + idx, 'e%d_' % idx)
                 expected = ref.eval_tm(expr, text)
-                labels.append('api-expected:' + ('PASS' if expected else 'FAIL'))
+                if not derived:
+                    labels.append('api-expected:' + ('PASS' if expected else 'FAIL'))
                 prims = _PRIMS_TM
             else:
                 src, files = c05_expr.render_tr(expr, style + idx, 'e%d_' % idx)
@@ -715,10 +549,11 @@ def check_api(case) -> Verdict:
                 labels.append('api-output:' + ('unchanged' if expected == text else
                                                'empty' if expected == '' else 'changed'))
                 prims = _PRIMS_TR
-            labels.extend(l for l in _expr_labels(expr, 'tm' if what == 'matcher' else 'tr')
-                          if not l.startswith(('regex:', 'tm-size', 'tr-size')))
-            if _nontrivial(text, expr, prims):
-                keys.append(_key(text, expr))
+            if not derived:
+                labels.extend(l for l in _expr_labels(expr, 'tm' if what == 'matcher' else 'tr')
+                              if not l.startswith(('regex:', 'tm-size', 'tr-size')))
+                if _nontrivial(text, expr, prims):
+                    keys.append(_key(text, expr))
             for name, content in files.items():
                 with open(str(home / name), 'wb') as f:
                     f.write(content.encode('utf-8'))
@@ -726,6 +561,7 @@ def check_api(case) -> Verdict:
             detail = {'text': text, what: expr, 'source': src, 'files': files,
                       'expected': expected}
             try:
+                src = src.replace('{HOME}', str(home))
                 prim = api.primitive(api.tm_parser if what == 'matcher' else api.tr_parser, src, tcds, env)
             except _ApiValidationError:
                 return _api_fail('api-%s/validation-error' % what, detail, labels, keys)
@@ -747,17 +583,12 @@ def check_api(case) -> Verdict:
                 if actual != expected:
                     detail['observed'] = actual
                     detail['model'] = kind
-                    hooks = _IntervalDefectHooks()
-                    predicted = (ref.eval_tm(expr, text, hooks) if what == 'matcher'
-                                 else ref.transform(expr, text, hooks))
-                    if what == 'matcher':
+                    if derived:
+                        bucket = 'api-transformer/line-structure-of-output'
+                    elif what == 'matcher':
                         bucket = 'api-matcher/%s/%s' % (expected, actual)
                     else:
                         bucket = 'api-transformer/output-differs/' + _diff_class(expected, actual)
-                    if predicted == actual:
-                        detail['defect_model'] = 'filter blind outside the modelled interval predicts the observation'
-                        return _finish(Verdict(ok=False, known=KF_INTERVAL, bucket=bucket, detail=detail,
-                                               labels=labels + ['known:interval']), keys)
                     return _api_fail(bucket, detail, labels, keys)
     finally:
         if d.exists():
@@ -892,11 +723,11 @@ SUBS = [
     Sub('cli_transformer_edge', check_cli_transformer, enumerate=_edge_cases_tr, exhaustive=True,
         render=_render_transformer_sample),
     Sub('cli_matcher', check_cli_matcher, strategy=lambda tier: _matcher_cases(tier),
-        budget={'quick': 6000, 'thorough': 150000}, render=_render_matcher_sample),
+        budget={'quick': 6000, 'thorough': 120000}, render=_render_matcher_sample),
     Sub('cli_transformer', check_cli_transformer, strategy=lambda tier: _transformer_cases(tier),
-        budget={'quick': 4000, 'thorough': 100000}, render=_render_transformer_sample),
+        budget={'quick': 4000, 'thorough': 80000}, render=_render_transformer_sample),
     Sub('api_pairs', check_api, strategy=lambda tier: _api_cases(tier),
-        budget={'quick': 5000, 'thorough': 150000}),
+        budget={'quick': 5000, 'thorough': 100000}),
     # the same check through a real OS process (guards against artefacts of the in-process harness)
     Sub('cli_matcher_subprocess', check_cli_matcher, strategy=lambda tier: _subproc_cases(),
         budget={'quick': 32, 'thorough': 640}, render=_render_matcher_sample),
